@@ -18,6 +18,8 @@ use crate::passes::semantics::time_and_difficulty::DEFAULT_DIFFICULTY_MASK;
 ///
 /// This pass is not idempotent, because it inserts [`ast::StmtKind::ScopeEnd`] statements.
 pub fn run<V: ast::Visitable + core::fmt::Debug>(ast: &mut V, ctx: &mut CompilerContext<'_>, language: LanguageKey) -> Result<(), ErrorReported> {
+    #[cfg(truth_verif)]
+    crate::verif_hooks::pass("desugar_blocks");
     insert_scope_ends(ast, ctx)?;
     convert_continue_and_break(ast, ctx)?;
 
